@@ -120,7 +120,7 @@ type Challenge struct {
 // The following checks are performed:
 //   - The metadataURL must use HTTPS or be a local address.
 //   - The resource field of the resulting metadata must match the resourceURL.
-//   - The authorization_servers field of the resulting metadata is checked for dangerous URL schemes.
+//   - The authorization_servers field and the other URL fields of the resulting metadata are checked for dangerous URL schemes.
 func GetProtectedResourceMetadata(ctx context.Context, metadataURL, resourceURL string, c *http.Client) (_ *ProtectedResourceMetadata, err error) {
 	defer util.Wrapf(&err, "GetProtectedResourceMetadata(%q)", metadataURL)
 	// Only allow HTTP for local addresses (testing or development purposes).
@@ -142,6 +142,17 @@ func GetProtectedResourceMetadata(ctx context.Context, metadataURL, resourceURL 
 		}
 		if err := checkHTTPSOrLoopback(u); err != nil {
 			return nil, fmt.Errorf("authorization_servers[%d]: %v", i, err)
+		}
+	}
+	// Likewise for the other URL fields, as for authorization server metadata.
+	for _, u := range []struct{ name, value string }{
+		{"jwks_uri", prm.JWKSURI},
+		{"resource_documentation", prm.ResourceDocumentation},
+		{"resource_policy_uri", prm.ResourcePolicyURI},
+		{"resource_tos_uri", prm.ResourceTOSURI},
+	} {
+		if err := checkURLScheme(u.value); err != nil {
+			return nil, fmt.Errorf("%s: %v", u.name, err)
 		}
 	}
 	return prm, nil
